@@ -21,6 +21,8 @@ Monitor (M2 at the command boundary, oracle vf/ref/c30_quicdemux.py, independent
                whose pair received a terminating signal (or after a connection close), never for an unrelated stream
                (a RESET is never accepted on the stream it came from; FIN+STOP_SENDING back to the terminating side is accepted
                only as the abort of a stream whose next layer was still undecided)
+  crash        no exception escapes handle_event, except the separately reported close_stream_layer assertion when a QUIC
+               connection closes while a stream's other side is not opened yet
   dgram        datagrams are relayed as datagrams to the other side, stream data never as datagrams
 """
 from mitmproxy.connection import ConnectionState
@@ -41,11 +43,12 @@ LEVEL = "exploration"
 ENGINE = "sansio"
 BUDGET = {"quick": (1500, 16), "thorough": (50000, 200)}
 WORKERS = {"quick": 4, "thorough": 16}
-REQUIRED = ["route.data", "route.class", "route.term", "pairs", "allocations", "fin_out", "reset_out", "stop_out", "events_behind_pending_hook", "nextlayer_cases", "next_layer_left_undecided", "next_layer_decided_late", "reset_on_undecided_stream"]
+REQUIRED = ["route.data", "route.class", "route.term", "pairs", "allocations", "fin_out", "reset_out", "stop_out", "events_behind_pending_hook", "no_handler_crash", "late_events_after_fin", "nextlayer_cases", "next_layer_left_undecided", "next_layer_decided_late", "reset_on_undecided_stream"]
 TECHNIQUE = "runtime monitoring: random interleaving of QUIC stream events on the real RawQuicLayer + tag-based routing oracle on the command log"
 RULE = (
     "case = 1-10 streams (class bidi/uni x client/server-initiated, index 0-6 so ids have gaps and arrive out of order), per stream and direction "
     "0-3 tagged chunks (optionally preceded by an empty STREAM frame) then FIN-with-data / empty FIN / RESET (also as the first event) / left open, "
+    "late RESET / repeated FIN on a stream whose direction already ended with FIN (also after the whole stream is finished), "
     "force_raw or next_layer policy deciding at the 1st-3rd ask or never, reactive responder scripts for bidi streams, 0-3 datagrams, optional "
     "QuicConnectionClosed from either/both sides at a random point, hooks completing late with random probability, random interleaving; signature = "
     "(multiset of stream classes, termination kinds used, #pairs class, conn-close pattern, hook-delay class, events-queued-behind-hook flag); "
@@ -108,7 +111,7 @@ class QuicLoop:
         except Exception as e:  # noqa
             import traceback
 
-            self.exceptions.append((type(e).__name__, exc_site(e), traceback.format_exc()[-800:]))
+            self.exceptions.append((type(e).__name__, exc_site(e), traceback.format_exc()[-800:], type(ev).__name__))
 
     def learn(self, side, sid):
         if sid not in self.known[side]:
@@ -230,6 +233,9 @@ def run_case(ctx, opts):
     ended_in = set()  # (side, sid) whose sending direction is finished (no more input events allowed)
     kinds_used = set()
     undecided_resets = [0]
+    late_prob = r.choice([0.0, 0.1, 0.3])
+    ended_by_fin = []  # keys that ended their direction with a FIN: a RESET_STREAM (or a retransmitted FIN) may still follow
+    late_done = set()
     steps = 0
 
     def emit(side, sid, act):
@@ -249,10 +255,13 @@ def run_case(ctx, opts):
             L.trace.append(("in", "data", side, sid, payload, fin))
             if fin:
                 ended_in.add(key)
+                ended_by_fin.append(key)
                 kinds_used.add("fin_data")
             L.feed(qe.QuicStreamDataReceived(L.conn(side), sid, payload, fin))
         elif act[0] == "fin":
             L.trace.append(("in", "data", side, sid, b"", True))
+            if key not in ended_in:
+                ended_by_fin.append(key)
             ended_in.add(key)
             kinds_used.add("fin_empty")
             L.feed(qe.QuicStreamDataReceived(L.conn(side), sid, b"", True))
@@ -264,6 +273,16 @@ def run_case(ctx, opts):
             if not force_raw and key not in L.decided_keys:
                 undecided_resets[0] += 1
             L.feed(qe.QuicStreamReset(L.conn(side), sid, reset_code[0]))
+
+    def late(key):
+        """an event on a stream whose direction already ended with FIN: RESET_STREAM after FIN (legal while the FIN is
+        unacknowledged) or a repeated empty FIN"""
+        late_done.add(key)
+        kinds_used.add("late")
+        late_count[0] += 1
+        emit(key[0], key[1], ["reset"] if r.random() < 0.8 else ["fin"])
+
+    late_count = [0]
 
     def feed_connclosed(side):
         L.current = None
@@ -301,6 +320,10 @@ def run_case(ctx, opts):
             acts.append(("dgram",))
         if close_order and steps >= close_at and close_order[0] not in closed_fed:
             acts.append(("connclosed", close_order[0]))
+        late_cands = [k for k in ended_by_fin if k not in late_done and k[0] not in closed_fed]
+        if late_cands and (not acts or r.random() < late_prob):
+            late(r.choice(late_cands))
+            continue
         if not acts:
             break
         comp = [a for a in acts if a[0] == "complete"]
@@ -333,6 +356,14 @@ def run_case(ctx, opts):
     while L.pending and guard < 300:
         guard += 1
         L.complete(r.choice(L.pending))
+    # late events on streams that are completely finished by now
+    if late_prob:
+        for k in [k for k in ended_by_fin if k not in late_done and k[0] not in closed_fed]:
+            if r.random() < 0.5:
+                late(k)
+        while L.pending and guard < 600:
+            guard += 1
+            L.complete(r.choice(L.pending))
 
     # ---- oracle
     viol, stats = ref.check(L.trace, nextlayer=not force_raw)
@@ -358,13 +389,23 @@ def run_case(ctx, opts):
         ctx.count("next_layer_decided_late", sum(1 for v in L.nl.values() if v["nl"].layer is not None and v["asks"] > 1))
     if undecided_resets[0]:
         ctx.count("reset_on_undecided_stream", undecided_resets[0])
+    if late_count[0]:
+        ctx.count("late_events_after_fin", late_count[0])
     if L.queued_behind_hook:
         ctx.count("events_behind_pending_hook", L.queued_behind_hook)
     for kind, detail in viol[:3]:
         ctx.violation(kind, {**witness, "detail": detail}, classify(kind, detail, L))
+    ctx.count("no_handler_crash")
     for e in L.exceptions:
-        ctx.seen("layer_exceptions", f"{e[0]}@{e[1]}")
+        ctx.seen("layer_exceptions", f"{e[0]}@{e[1]} on {e[3]}")
         ctx.count("layer_exception")
+        # The only tolerated escape (robustness observation outside the property, reported separately): a QUIC connection
+        # closes while a stream's other side has not been opened yet (start hook / next layer pending):
+        # `assert conn.timestamp_start is not None` in close_stream_layer.  Anything else (e.g. the stream-registration
+        # assertion in _handle_event) means a stream event was dispatched to the wrong / no stream layer.
+        if not (e[0] == "AssertionError" and e[1] == "_raw_layers.py:close_stream_layer" and e[3] == "QuicConnectionClosed"):
+            ctx.violation(f"handler-crash:{e[0]}@{e[1]}", {**witness, "event": e[3], "tb": e[2]}, classify("handler-crash", e, L))
+            break
     if L.unexpected:
         ctx.violation("unexpected-command", {**witness, "commands": L.unexpected[:5]})
     for side in "cs":
@@ -388,7 +429,7 @@ def run_case(ctx, opts):
 
 
 def classify(kind, detail, loop):
-    return None
+    return None  # no known findings for C30
 
 
 def run(ctx):
